@@ -150,6 +150,9 @@ Apply(G, L, r, Cont) ==
      [] r.op = "close"    -> [gr |-> [G EXCEPT ![r.s] = TransClosure(@)], live |-> L]
      [] OTHER             -> [gr |-> G, live |-> L]     \* queries do not change anything
 
+(* the slot an operation writes *)
+Target(r) == CASE r.op \in {"copy", "invert"} -> r.t [] r.op = "sum" -> r.u [] OTHER -> r.s
+
 Init == /\ gr = [s \in Slots |-> Empty]
         /\ live = {1}
         /\ steps = 0
@@ -236,5 +239,4 @@ W_TwoLive      == ~(\E s, t \in live : s # t /\ gr[s] # gr[t] /\ gr[s].edges # {
 W_EmptyLink    == ~(\E s \in live : \E g \in GraphNodes(gr[s], Content) :
                        Content[g].nodes = {} /\ Deps(gr[s], g) # {} /\ Dependees(gr[s], g) # {} /\ ~Cyclic(gr[s]))
 W_Cyclic       == ~(\E s \in live : Cyclic(gr[s]))
-W_Shrunk       == ~(\E s \in live : gr[s].nodes # {} /\ gr[s].edges = {} /\ hist # <<>> /\ hist[Len(hist)].op = "rmnode")
 =============================================================================
